@@ -216,6 +216,10 @@ VSread(int32 vkey,  /* IN: vdata key */
     w           = &(vs->wlist);
     r           = &(vs->rlist);
     hsize       = (int)vs->wlist.ivsize; /* size as stored in HDF */
+
+    /* the byte count of the request must fit a signed 32-bit length */
+    if (hsize > 0 && nelt > INT32_MAX / hsize)
+        HGOTO_ERROR(DFE_ARGS, FAIL);
     total_bytes = hsize * nelt;
 
     /*
@@ -511,6 +515,10 @@ VSwrite(int32       vkey,  /* IN: vdata key */
         HGOTO_ERROR(DFE_ARGS, FAIL);
 
     hdf_size    = (int)w->ivsize; /* as stored in HDF file */
+
+    /* the byte count of the request must fit a signed 32-bit length */
+    if (hdf_size > 0 && nelt > INT32_MAX / hdf_size)
+        HGOTO_ERROR(DFE_ARGS, FAIL);
     total_bytes = hdf_size * nelt;
 
     /* make sure we have a valid AID */
